@@ -1,6 +1,6 @@
 module verifharness
 
-go 1.18
+go 1.21
 
 require (
 	github.com/philpearl/plenc v0.0.0
